@@ -669,6 +669,12 @@ class Interp:
             if not items:
                 items = [it for it in self.prog.const_items.get('promoted[%s]' % m.group(2), ())
                          if strip_generics(it[0]) == strip_generics(name.strip())]
+            if not items:
+                sn = strip_generics(name.strip())
+                items = [it for it in self.prog.const_items.get('promoted[%s]' % m.group(2), ())
+                         if sn.endswith('::' + strip_generics(it[0])) or strip_generics(it[0]).endswith('::' + sn)]
+            if len(items) != 1:
+                raise Inconclusive('promoted constant %s not found uniquely (%d)' % (name, len(items)))
         if items:
             cands = [it for it in items if it[0] == name.strip()] or \
                     [it for it in items if strip_generics(it[0]).split('::')[-1] == simple and
